@@ -17,6 +17,9 @@ type Lexer struct {
 
 	buf    bytes.Buffer
 	offset int
+
+	// unclosed is true if the input ended in the middle of a bracketed comment.
+	unclosed bool
 }
 
 // Token returns the next token.
@@ -257,6 +260,7 @@ func (l *Lexer) commentText(bracketed bool) (Token, error) {
 		for {
 			switch r, err := l.next(); {
 			case err != nil:
+				l.unclosed = true
 				return Token{}, err
 			case r == '*':
 				return l.commentClose()
@@ -293,6 +297,7 @@ func (l *Lexer) commentOpen() (Token, error) {
 func (l *Lexer) commentClose() (Token, error) {
 	switch r, err := l.next(); {
 	case err != nil:
+		l.unclosed = true
 		return Token{}, err
 	case r == '/':
 		return l.layoutTextSequence(true)
